@@ -17,6 +17,18 @@ CLAIMED = {
  "C02": dict(cat="proof", technique="Coq stack-invariant proof (trace of actions = post-order of the returned tree; tree = derivation of the input) on validated tables + in-Coq correspondence with the real driver",
    text="Props/C02.v: for all validated tables and all inputs, the user actions that ran, in order, are exactly the post-order traversal of the unique derivation tree (each node once), each action's children are its production's symbols left to right, and the leaves are the input tokens. Tied per run like C01; the statement is also judged directly on every implementation output. Partial: what a *missing* action denotes (default actions, <>, tuple patterns) lives in normalize/lower and is exercised by the compiled-parser tier, not by a theorem yet.",
    ref="DESIGN.md §4 C02", note="Trusted: as C01; user action code abstracted to tree construction. No axioms."),
+ "C04": dict(cat="proof", technique="Coq invariant proofs on the driver model (error token = token reached, nothing read beyond it, EOF error position, no ExtraToken on validated tables) + kernel-checked validator certificates + in-Coq correspondence; first-non-viable-token clause decided per input by an Earley oracle",
+   text="Partial, stated as such in Props/C04.v: proved for all tables/inputs (no recovery): UnrecognizedToken carries exactly the input token at the position reached with its own span and exactly the tokens up to it were pulled; UnrecognizedEof only after the whole input, at the end of the last token (0 for empty input); and for all validated tables ExtraToken is never returned. NOT yet a theorem: that the reported token is the FIRST one that cannot continue a sentence (viable-prefix invariant + completeness + locality); that clause is decided on every explored input by an independent Earley recogniser, on tables freshly generated in lane/LR1/LALR modes, and `valid`+`productive` are kernel-checked for those tables.",
+   ref="DESIGN.md §4 C04", note="Trusted: as C01 + Earley oracle in tools/gram.py for the first-error clause. No axioms."),
+ "C05": dict(cat="proof", technique="Coq proofs on the driver model (expected list = accepts-filter of the terminal table: no duplicates, never the error terminal) + kernel-checked certificates + in-Coq correspondence; viability of each listed terminal decided per input by an Earley oracle",
+   text="Partial: Props/C05.v proves for all tables (no recovery) that every reported expected list is duplicate-free, names only terminals below |__TERMINAL| (never the error pseudo-terminal) and is exactly the set of terminals on which the accepts simulation succeeds on the current stack. NOT yet a theorem: that each listed terminal is a viable continuation, and completeness for canonical LR(1); both are decided per explored input by an Earley oracle (incl. unknown-token inputs). Known finding (recursive ascent over-broad lists) is outside this check until the compiled-parser tier lands.",
+   ref="DESIGN.md §4 C05", note="Trusted: as C04. No axioms."),
+ "C08": dict(cat="proof", technique="Coq proof that the driver model never reaches a panic site on validated tables (stack invariant + state-level walk for accepts) + kernel-checked `terminates` certificates (closed reduce sequences, replacement chains) + in-Coq correspondence incl. corrupted tables",
+   text="Partial: Props/C08.v proves for all validated tables (no recovery), all inputs, oracles and budgets, that the parser and the accepts simulation never hit any of the panic sites (indexing, unwrap, underflow, symbol type mismatch, explicit panics). Termination: the validator's `terminates` condition (every closed reduce sequence ends within the certificate's fuel, replacement chains end) is kernel-checked for every generated table, and every run on generated tables must return within a step budget; the lemma lifting `terminates` to a step bound for the whole parse (DESIGN Appendix E) is not ported to this model yet. Recovery paths and corrupted tables are covered by the correspondence (model Panic/out-of-fuel <-> implementation panic/budget). The built-in lexer part of the property is not covered by this check yet.",
+   ref="DESIGN.md §4 C08", note="Trusted: as C01; step budget of the harness (3e5 table lookups). No axioms."),
+ "C16": dict(cat="proof", technique="Coq completeness theorem (sentences are parsed without recovery, tree has no error node) + line-by-line Gallina model of Parser::error_recovery compared inside Coq with the real runtime + direct judgement of every recovered tree",
+   text="Partial: Props/C16.v proves for all validated tables (with or without `!`) that an input derivable without `!` is parsed to exactly its derivation tree, which has no error node (no recovery at all). The tree/coverage/ordering clauses for recovered parses are not theorems yet: they are decided on every explored input directly (tree is a derivation reading error nodes as `!`; leaves a subsequence; every other token inside exactly one error span; spans ordered/disjoint; dropped lists in order), on grammars with `!` at several depths incl. `!` followed by nullable symbols, and the model of error_recovery is tied to the real code by in-Coq evaluation.",
+   ref="DESIGN.md §4 C16", note="Trusted: as C01. No axioms."),
 }
 NOT_YET = "check not built yet in this round (see DESIGN.md §9 staging); not claimed until its check runs clean"
 
